@@ -35,7 +35,10 @@ def rand_history(rng):
                 used.add(x)
                 return x
         return None
-    skew = rng.choice(["increasing", "equal", "skewed"])
+    skew = rng.choice(["increasing", "equal", "skewed", "increasing", "skewed"])
+    if rng.random() < 0.12:           # a history dated in the future (clock skew, reproducible-build dates): git's dates are data
+        T = t = 4070908800 + rng.randint(0, 10 ** 6)
+        steps = [("commit", t)]
     for _ in range(rng.randint(1, 14)):
         r = rng.random()
         if r < 0.38:
